@@ -39,6 +39,8 @@ FUNCS = [
     Func("useReg", [Param(C("Reg"), "r"), Param(P("int"), "k")], P("int"), [Ret(Bin("+", MCall(Var("r"), "val"), Var("k")))]),
     # 'destroy' requests a collection, which runs at the next statement boundary - inside the caller's argument list
     Func("pick", [Param(P("int"), "k")], P("int"), [Decl(C("Pt"), "s", New("Pt", Var("k"))), Destroy("s"), Ret(Var("k"))]),
+    Func("mkw", [Param(P("int"), "x")], C("Wrap"), [Decl(C("Pt"), "older", New("Pt", Var("x"))), Decl(C("Wrap"), "w", New("Wrap", Var("older"), I(3))), Ret(Var("w"))]),
+    Func("usew", [Param(C("Wrap"), "w"), Param(P("int"), "k")], P("int"), [Ret(Bin("+", MCall(Var("w"), "val"), Var("k")))]),
     Func("cycle", [Param(P("int"), "base")], P("int"),
          [Decl(C("Node"), "a", New("Node", Var("base"))), Decl(C("Node"), "b", New("Node", Bin("+", Var("base"), I(1)))),
           Expr(FAsg(Var("a"), "next", Var("b"))), Expr(FAsg(Var("b"), "next", Var("a"))),
@@ -63,6 +65,11 @@ def shapes(rnd):
         lambda: Echo(Call("useReg", New("Reg", New("Pt", I(9))), Call("pick", I(2)))),              # collection requested by destroy
         lambda: Echo(Call("use", New("Pt", I(10)), Call("pick", I(3)))),
         lambda: Echo(MCall(New("Reg", Call("mk", Call("pick", I(4)))), "val")),
+        # a pending holder whose only path to an OLDER object (allocated before the holder) is its field
+        lambda: Echo(Call("usew", Call("mkw", I(11)), Call("churn", n()))),
+        lambda: Echo(Call("usew", Call("mkw", I(12)), Call("pick", I(5)))),
+        lambda: Echo(Call("usew", Call("mkw", Call("churn", n())), Call("pick", I(6)))),
+        lambda: Echo(MCall(Call("mkw", Call("pick", I(7))), "val")),
     ]
 
 
